@@ -12,3 +12,6 @@ import BnpVerif.Props.C12
 #print axioms C12.left_join_complete
 #print axioms C12.zip_columns_complete
 #print axioms C12.ragged_change_iff
+#print axioms C12.repeated_group_unsound
+#print axioms C12.compatible_iff_sublist
+#print axioms C12.sync_chunking_independent
